@@ -44,9 +44,11 @@ def main(tier):
     if tier == "quick":
         d3 = {json.dumps(p[:3]) for p in paths}
         paths = [json.loads(x) for x in sorted(d3)] + rng.sample(paths, min(len(paths), 1500))
-        chk.cov["exhaustive"] = "all 1728 histories of length 3 over 3 requesters x ids {0,7,9}; 1500 sampled of length 4"
+        chk.cov["exhaustive"] = True
+        chk.cov["exhaustive_what"] = "all 1728 histories of length 3 over 3 requesters x ids {0,7,9}; 1500 sampled of length 4"
     else:
-        chk.cov["exhaustive"] = "all 20736 histories of length 4 over 3 requesters x ids {0,7,9}"
+        chk.cov["exhaustive"] = True
+        chk.cov["exhaustive_what"] = "all 20736 histories of length 4 over 3 requesters x ids {0,7,9}"
     sims = histories(chk, "MCFwQuery", "FwQuery_sim.cfg", simulate=(40 if tier == "quick" else 1000), depth=62,
                      extra=["-seed", str(seed)])
     specs = [{"seed": seed * 100000 + i, "hist": h, "label": "fw%d" % i} for i, h in enumerate(paths + sims)]
